@@ -252,8 +252,18 @@ class FakeResp:
         self._text = text
         self.closed = False
 
+    body_exc: BaseException | None = None      # raised when the body of this answer is read (part R, via api.get)
+
+    async def __aenter__(self) -> "FakeResp":
+        return self
+
+    async def __aexit__(self, *a: Any) -> None:
+        self.closed = True
+
     async def json(self) -> Any:
         import aiohttp
+        if self.body_exc is not None:
+            raise self.body_exc
         if self._payload is None:
             raise aiohttp.ContentTypeError(None, ())   # type: ignore[arg-type]
         return self._payload
@@ -373,16 +383,42 @@ def make_resp(a: dict) -> FakeResp:
     det = a.get("det")
     body: Any = None
     text = None
-    if pk in ("status", "other-json"):
-        body = {"kind": "Status" if pk == "status" else "Other", "apiVersion": "v1", "code": a["status"],
+    if pk in ("status", "other-json", "bad-details"):
+        body = {"kind": "Other" if pk == "other-json" else "Status", "apiVersion": "v1", "code": a["status"],
                 "message": "scripted", "reason": "Scripted"}
-        if det is not None:
-            body["details"] = {"retryAfterSeconds": det}
+        if pk == "bad-details":
+            body["details"] = a.get("details_value", "see the docs")     # a truthy non-dict
+        elif det is not None:
+            body["details"] = {"retryAfterSeconds": det_value(det)}
         elif a.get("empty_details"):
             body["details"] = {}
+    elif pk == "other-value":
+        body = a.get("body_value", [1])                                   # a truthy JSON list / number / bool
     elif pk == "text":
         text = "scripted failure text"
     return FakeResp(a["status"], headers, body, text)
+
+
+def det_value(det: Any) -> Any:
+    """the JSON value of details.retryAfterSeconds for a spec value (specs are JSON-able: inf/nan by name)"""
+    return {"Infinity": float("inf"), "NaN": float("nan")}.get(det, det) if isinstance(det, str) else det
+
+
+def det_class(det: Any) -> tuple[int | None, bool]:
+    """(requested ticks | None, unusable) — unusable: truthy, but not a finite number"""
+    import math
+    v = det_value(det)
+    if v is None:
+        return None, False
+    if isinstance(v, bool) or not isinstance(v, (int, float, str)):
+        return None, bool(v)
+    try:
+        f = float(v)
+    except ValueError:
+        return None, bool(v)
+    if math.isinf(f) or math.isnan(f):
+        return None, True
+    return tk(f), False
 
 
 class ScriptSession:
@@ -394,13 +430,17 @@ class ScriptSession:
         self.closed = False
         self.attempts: list[int] = []
         self.facts: list[list] = []
+        self.body_exc: str | None = None
 
     async def request(self, **kw: Any) -> FakeResp:
         import aiohttp
         loop = asyncio.get_running_loop()
         self.attempts.append(tk(loop.time()))
         if not self.script:
-            return FakeResp(200, {}, {})
+            r = FakeResp(200, {}, {})
+            if self.body_exc is not None:
+                r.body_exc = make_exc(self.body_exc)
+            return r
         a = self.script.pop(0)
         if a["lat"]:
             await asyncio.sleep(sec(a["lat"]))
@@ -555,7 +595,14 @@ async def _one_request(env: dict, case: dict) -> dict:
     t0 = tk(loop.time())
     exc: BaseException | None = None
     try:
-        await api.request("get", "/apis/x", settings=settings, logger=env["logger"], context=ctxt)
+        if case.get("via") == "get":
+            # api.get → request() under the REAL `authenticated`, then `response.json()` outside the loop
+            sess.body_exc = case.get("body_exc")
+            vault = credentials.Vault({"k": credentials.AiohttpSession(server="http://fake", aiohttp_session=sess)})
+            auth.vault_var.set(vault)
+            await api.get("/apis/x", settings=settings, logger=env["logger"])
+        else:
+            await api.request("get", "/apis/x", settings=settings, logger=env["logger"], context=ctxt)
     except Exception as e:       # noqa: BLE001 — every escalation is an observation
         exc = e
     fin = tk(loop.time())
@@ -611,10 +658,13 @@ def request_to_lean(case: dict, obs: dict) -> list:
         if a["kind"] == "exc":
             f = fact if fact is not None else _exc_facts(a["exc"])
         else:
-            d = None if a.get("det") is None else tk(a["det"])
-            f = ["http", a["status"], attempt_hdr(a, fact), a.get("payload", "empty"), d]
+            d, bad = det_class(a.get("det"))
+            f = ["http", a["status"], attempt_hdr(a, fact), a.get("payload", "empty"), d, bad]
         script.append({"lat": a["lat"], "f": f})
-    return ["C12.request", {"backoffs": seq_to_lean(case["backoffs"]), "enforce": case["enforce"]}, script, obs["t0"]]
+    cfg = {"backoffs": seq_to_lean(case["backoffs"]), "enforce": case["enforce"]}
+    if case.get("via") == "get":
+        return ["C12.getjson", cfg, script, obs["t0"], case.get("body_exc") is not None]
+    return ["C12.request", cfg, script, obs["t0"]]
 
 
 def _exc_facts(name: str) -> list:
@@ -668,8 +718,20 @@ def oracle_request(case: dict, obs: dict) -> list[tuple[str, dict]]:
             expected_attempts = i + 1
             expected_final = ("status", a["status"]) if a["kind"] == "http" else ("exc", a["exc"])
             break
+    if expected_final == "ok" and case.get("body_exc") is not None and n == expected_attempts:
+        # the answer came, reading its body hit a network error: a transient failure, to be retried
+        out.append((f"a network error ({obs['exc']}) while reading the body of the answer was not retried: 1 pass, {n} attempt(s)",
+                    {"site": "api.get/post/patch/delete", "shape": "network error in response.json() is outside the retry loop"}))
+        expected_attempts = None
     if expected_attempts is not None:
         last = script[n - 1] if 0 < n <= len(script) else None
+        if last is not None and last["kind"] == "http" and obs["exc"] in ("ValueError", "OverflowError", "TypeError", "AttributeError") \
+                and (last.get("payload") in ("other-value", "bad-details") or det_class(last.get("det"))[1]):
+            out.append((f"an HTTP {last['status']} whose body is not what the client expects made the error handling raise "
+                        f"{obs['exc']}: {'not retried' if _transient(last) else 'escalated as a foreign exception'}",
+                        {"site": "errors.APIError/api.request", "shape": "error body (non-dict JSON / unusable details) -> foreign exception, no retry"}))
+            expected_attempts = None
+    if expected_attempts is not None:
         last_hdr = attempt_hdr(last, obs["facts"][n - 1] if n - 1 < len(obs["facts"]) else None) \
             if last is not None and last["kind"] == "http" and last["status"] == 429 else None
         if n <= expected_attempts and last_hdr is not None and last_hdr[0] == "date" and obs["exc"] == "ValueError":
@@ -702,23 +764,28 @@ def oracle_request(case: dict, obs: dict) -> list[tuple[str, dict]]:
         b = budget[i] if i < len(budget) else None
         ra = None
         shape = None
-        if a["kind"] == "http" and a["status"] == 429:
+        if a["kind"] == "http" and a["status"] >= 400:     # every retried status (a next attempt exists)
             h = attempt_hdr(a, obs["facts"][i] if i < len(obs["facts"]) else None)
             if h is not None and h[0] in ("secs", "other-case"):
                 ra = h[1]                            # what the server sent, whatever the spelling of the name
                 shape = "other-case" if h[0] == "other-case" else ("fraction" if h[1] % 1024 else None)
             elif h is not None and h[0] == "date":
                 ra = max(0, h[1])                    # never before the date itself (no tolerance)
-            elif h is None and a.get("det") and a.get("payload") == "status":
-                ra = tk(a["det"])
+            elif h is None and a.get("payload") == "status" and det_class(a.get("det"))[0]:
+                ra = det_class(a.get("det"))[0]
                 shape = "fraction" if ra % 1024 else None
+            if a["status"] != 429:
+                shape = "not-429"
         if b is None:
             out.append(("a retry happened beyond the configured backoffs", {"site": "api.request", "shape": "retry-without-backoff"}))
             continue
         if gap < max(0, b) and not (case["enforce"] and ra is not None):
             out.append((f"waited {gap} ticks, configured backoff {b}", {"site": "api.request", "shape": "gap<backoff"}))
         if ra is not None and gap < ra:
-            if shape == "other-case" and not (ra % 1024 and gap >= (ra // 1024) * 1024):
+            if shape == "not-429":
+                out.append((f"waited {gap} ticks after an HTTP {a['status']} asking for {ra}",
+                            {"site": "api.request", "shape": "Retry-After / retryAfterSeconds is read for HTTP 429 only (ignored on 5xx/403)"}))
+            elif shape == "other-case" and not (ra % 1024 and gap >= (ra // 1024) * 1024):
                 out.append((f"waited {gap} ticks after a 429 asking for {ra} in a header spelled {a.get('hdr_name')!r}",
                             {"site": "errors.check_response/api.request", "shape": "Retry-After under another capitalisation is ignored (case-sensitive dict lookup)"}))
             elif shape in ("fraction", "other-case") and ra % 1024 and gap >= (ra // 1024) * 1024:
@@ -1456,6 +1523,12 @@ def oracle_vault(case: dict, obs: dict) -> list[tuple[str, dict]]:
             populated_since_flip = True
         if kind == "invalWake" and l["effect"] == "released" and not snap["cur"]:
             out.append(("a blocked request proceeded without credentials", {"site": "Vault.invalidate", "shape": "proceed-empty"}))
+        if kind in ("inval", "invalWake", "acquireFail") and l["effect"] == "raised" and not snap["ready"]:
+            # "all blocked requests proceed with fresh credentials": while a re-authentication is pending, a
+            # request hit by the 401 must WAIT for it, not fail (LoginError is for a re-authentication that
+            # has finished and delivered nothing)
+            out.append(("a request failed with LoginError while the re-authentication was still pending (it must wait for it)",
+                        {"site": "Vault.invalidate", "shape": "login-error-before-reauth-finished"}))
         if kind in ("invalWake", "acquireFail") and l["effect"] == "raised" and snap["cur"]:
             out.append(("a request failed with LoginError although credentials are available", {"site": "Vault", "shape": "login-error-with-credentials"}))
         prev = snap
